@@ -347,11 +347,14 @@ def parent_main(a):
                                "witness": {"key": k, "values": {a: b for a, b in list(vals.items())[:4]}}, "shard": -1})
     known = load_known()
     known_hit = Counter()
+    known_wids = {}
     new_viol = []
     for v in violations:
         k = match_known(pid, v, known)
         if k is not None:
             known_hit[k["key"]] += 1
+            if v.get("witness_id"):
+                known_wids.setdefault(k["key"], set()).add(v["witness_id"])
         else:
             new_viol.append(v)
 
@@ -374,6 +377,7 @@ def parent_main(a):
         "shards": nsh,
         "hash_seeds": hashseeds,
         "known_findings_reproduced": dict(known_hit),
+        "known_finding_witnesses": {k: sorted(v) for k, v in known_wids.items()},
         "exhaustive_subspaces": exhaustive,
         "bad_shards": bad_shards,
     }
